@@ -46,6 +46,9 @@ NOPATH = ('NO_PATH', 'NO_PATH_WITH_CONSTRAINT', 'NO_FEASIBLE_BAUDRATE_WITH_SPACI
 def gen(rng, tier, widen=False):
     case = batch_g.gen_batch(rng, tier)
     case['malformed'] = None
+    if rng.random() < 0.15:
+        _tie_case(rng, case)
+        return case
     if rng.random() < 0.10:
         t = rng.choice(['dup_id', 'unknown_trx', 'unknown_node', 'strict_unknown_include'])
         case['malformed'] = t
@@ -62,6 +65,38 @@ def gen(rng, tier, widen=False):
         else:
             r['include'], r['strict'] = ['roadm nowhere'], True
     return case
+
+
+def _tie_case(rng, case):
+    """a served fixed-mode request whose reported lowest SNR (2 decimals) EQUALS mode OSNR + margin exactly (or sits 0.01 dB on
+    either side): the verdict accepts equality, so JSON (labels, no reason) and CSV (Pass? True) must agree at the tie.
+    The library OSNR is calibrated on the request computed alone (absolute value stored in the case)."""
+    n = case['n']
+    r0 = batch_g.gen_request(rng, case['requests'][0]['id'], 'fixed', n, [])
+    r0['mode'], r0['spacing'], r0['nm'] = 'm100', 50e9, None
+    case['requests'][0] = r0
+    case['lib']['penalties'] = False
+    case['tie'] = None
+    try:
+        ctx = batch_g.build(case)
+        res = batch_g.run_planning(ctx, [r0])
+        j = batch_g.norm(res[5][0].json)
+        props = j.get('path-properties') or j['no-path']['path-properties']
+        low = next(x['accumulative-value'] for x in props['path-metric'] if x['metric-type'] == 'lowest_SNR-0.1nm')
+        margin = case['lib']['margin']
+        d = rng.choice([0.0, 0.0, 0.01, -0.01])
+        osnr = low - margin
+        if d == 0.0:
+            for _ in range(4):      # the float whose sum with the margin is exactly the reported value
+                if osnr + margin == low:
+                    break
+                osnr = math.nextafter(osnr, math.inf if osnr + margin < low else -math.inf)
+        else:
+            osnr = round(low - margin + d, 2)
+        case['lib']['osnr']['m100'] = osnr
+        case['tie'] = {'lowest': low, 'd': d}
+    except Exception:      # noqa: BLE001  calibration is best effort: the case stays an ordinary batch
+        pass
 
 
 def _recv_json(rx):
@@ -172,7 +207,7 @@ def run(case, drv):
     fresh = correct_json_route_list(net, requests_from_json({'path-request': [batch_g.req_doc(r) for r in reqs]}, eq))
     keyf = lambda q: batch_g.canon([q.source, q.destination, q.tsp, q.tsp_mode, q.baud_rate, q.nodes_list, q.loose_list,  # noqa: E731
                                     q.spacing, q.power, q.nb_channel, q.f_min, q.f_max, q.format, q.OSNR, q.roll_off,
-                                    q.tx_power])
+                                    q.tx_power, bool(q.bidir)])
     agg_in = [{'id': q.request_id, 'key': keyf(q), 'has_mode': q.tsp_mode is not None, 'bw': f2b(q.path_bandwidth),
                'N': [None if x is None else int(x) for x in q.N], 'M': [None if x is None else int(x) for x in q.M]}
               for q in fresh]
@@ -364,7 +399,7 @@ def _monitor(res, case, ctx, rqs, pp, rpp, impl, rows):
             res.fail(f'response id: {what} stands for request object {rq.request_id}')
         if len(members) > 1:
             def ident(m):
-                d = {k: m[k] for k in ('src', 'dst', 'type', 'mode', 'spacing', 'include', 'strict')}
+                d = {k: m[k] for k in ('src', 'dst', 'type', 'mode', 'spacing', 'include', 'strict', 'bidir')}
                 d['power'] = m['power'] if m['power'] is not None else float(dbm2watt(eq['SI']['default'].power_dbm))
                 return d
             k0 = ident(members[0])
@@ -372,6 +407,10 @@ def _monitor(res, case, ctx, rqs, pp, rpp, impl, rows):
                 if ident(m) != k0 or m['mode'] is None:
                     res.fail(f'aggregation: {what} joins requests that are not identical')
         bw = sum(m['bw'] for m in members)
+        for m in members:
+            if bool(m['bidir']) != bool(rq.bidir):
+                res.fail(f'bidirectional: request {m["id"]} is {"bi" if m["bidir"] else "uni"}directional but is answered by {what}, '
+                         f'which is {"bi" if rq.bidir else "uni"}directional: it would {"lose" if m["bidir"] else "gain"} its z-a direction')
         reason = getattr(rq, 'blocking_reason', None)
         if row['response-id'] != rid:
             res.fail(f'csv: row of {what} carries id {row["response-id"]}')
@@ -471,10 +510,13 @@ def _monitor(res, case, ctx, rqs, pp, rpp, impl, rows):
             if num('min required OSNR (inc. margin)') is None or abs(num('min required OSNR (inc. margin)') - thr) > 1e-9:
                 res.fail(f'csv: {what}: required OSNR column {row["min required OSNR (inc. margin)"]}, mode OSNR + margin = {thr}')
             if reason is None:
-                exp_pass = pm['lowest_SNR-0.1nm'] >= thr
-                if abs(pm['lowest_SNR-0.1nm'] - thr) > 1e-6 and row['Pass?'] != str(exp_pass):
-                    res.fail(f'csv: {what}: Pass? = {row["Pass?"]} with lowest SNR {pm["lowest_SNR-0.1nm"]} and threshold '
-                             f'incl. margin {thr}')
+                # served (labels, no blocking reason) <=> Pass? True — at the tie too: the verdict accepts equality
+                if row['Pass?'] != 'True':
+                    res.fail(f'csv: {what} is served (no blocking reason) but Pass? = {row["Pass?"]} with lowest SNR '
+                             f'{pm["lowest_SNR-0.1nm"]} and threshold incl. margin {thr}')
+                if pm['lowest_SNR-0.1nm'] < thr - 1e-9:
+                    res.fail(f'csv: {what} is served with lowest SNR {pm["lowest_SNR-0.1nm"]} below the threshold incl. margin {thr}')
+                res.stats['served_at_exact_tie'] += int(pm['lowest_SNR-0.1nm'] == thr)
                 gb, gr = bw * 1e-9, mode['bit_rate'] * 1e-9
                 nb = math.ceil(round(gb, 2) / round(gr, 2))
                 if row['nb of tsp pairs'] != str(nb):
@@ -498,6 +540,32 @@ def _monitor(res, case, ctx, rqs, pp, rpp, impl, rows):
                     res.fail(f'csv: {what}: column {k} = {row[k]}, z-a metric {mk} = {zm[mk]}')
         elif any(row[k] != '' for k in REV_FIELDS):
             res.fail(f'csv: {what}: reverse columns filled for a unidirectional request')
+    # ---- forward AND z-a metrics of every bidirectional request = the same request computed ALONE on a freshly designed network
+    # (the receiver objects left in reversed_propagatedpths could have been overwritten by a later request: they cannot tell)
+    for j, rq in zip(impl, rqs):
+        rid = j['response-id']
+        if ' | ' in rid or rid not in by_id or not by_id[rid]['bidir']:
+            continue
+        props = j.get('path-properties') or j.get('no-path', {}).get('path-properties')
+        if props is None:
+            continue
+        fresh = batch_g.build(case)
+        ja = batch_g.norm(batch_g.run_planning(fresh, [by_id[rid]])[5][0].json)
+        pa = ja.get('path-properties') or ja.get('no-path', {}).get('path-properties')
+        res.stats['bidir_compared_with_alone'] += 1
+        if pa is None:
+            res.fail(f'alone vs batch: response {rid} has path properties in the batch but none when computed alone')
+            continue
+        for key, name in (('path-metric', 'forward'), ('z-a-path-metric', 'z-a')):
+            a = [[x['metric-type'], x['accumulative-value']] for x in props.get(key, [])]
+            b = [[x['metric-type'], x['accumulative-value']] for x in pa.get(key, [])]
+            if a != b:
+                bad = next(((x, y) for x, y in zip(a, b) if x != y), (a[:1], b[:1]))
+                res.fail(f'alone vs batch: {name} metrics of bidirectional request {rid} in the batch {bad[0]} differ from the same '
+                         f'request computed alone on a freshly designed network {bad[1]}')
+                break
+    srcs = [by_id[x]['src'] for x in by_id if by_id[x]['bidir']]
+    res.stats['batches_with_two_bidir_from_same_source'] += int(len(srcs) != len(set(srcs)))
     if ill_any:
         res.ill += 1
     return ill_any
